@@ -71,4 +71,36 @@ mod proofs {
         kani::cover!(n == 2 && sf > 0, "two events with a fee are reachable");
         core::mem::forget(new);
     }
+
+    /// C11 (accumulate-only bookkeeping): `BidOrderV3::update_remaining_amounts` with any action grows the three accumulators by
+    /// exactly the action's amounts and touches no other field (u64-range operands, so the u128 sums cannot overflow).
+    #[kani::proof]
+    #[kani::unwind(2)]
+    fn update_remaining_amounts_only_accumulates() {
+        let (ab, aq, af): (u64, u64, u64) = (kani::any(), kani::any(), kani::any());
+        let (base, quote, fee): (u64, u64, u64) = (kani::any(), kani::any(), kani::any());
+        let has_fee: bool = kani::any();
+        let mut bid = BidOrderV3 {
+            base: coin(base),
+            accumulated_base: Uint128::new(ab as u128),
+            accumulated_quote: Uint128::new(aq as u128),
+            accumulated_fee: Uint128::new(af as u128),
+            fee: if has_fee { Some(coin(fee)) } else { None },
+            id: String::new(),
+            owner: Addr::unchecked(""),
+            price: String::new(),
+            quote: coin(quote),
+        };
+        let (e, b, q, f) = any_event();
+        let r = bid.update_remaining_amounts(&e.action);
+        assert!(r.is_ok());
+        assert!(bid.accumulated_base.u128() == ab as u128 + b);
+        assert!(bid.accumulated_quote.u128() == aq as u128 + q);
+        assert!(bid.accumulated_fee.u128() == af as u128 + f);
+        assert!(bid.base.amount.u128() == base as u128 && bid.quote.amount.u128() == quote as u128);
+        assert!(bid.fee.is_some() == has_fee);
+        kani::cover!(f > 0 && b > 0, "an action with base and fee is reachable");
+        core::mem::forget(bid);
+        core::mem::forget(e);
+    }
 }
